@@ -5,12 +5,14 @@ package main
 import (
 	"bytes"
 	"context"
+	"encoding/base64"
 	"encoding/json"
 	"fmt"
 	"regexp"
 	"sort"
 	"strings"
 	"time"
+	"unicode/utf8"
 
 	"github.com/tdakkota/docker-logql/internal/lokiapi"
 	"github.com/tdakkota/docker-logql/internal/zzverif/fakedocker"
@@ -20,6 +22,41 @@ import (
 type c15Entry struct {
 	TS  int64  `json:"ts"`
 	Msg string `json:"msg"`
+}
+
+// Messages are arbitrary bytes; JSON strings are not. A message that is not valid UTF-8 is recorded in base64
+// so that a replay file carries exactly the bytes that were rendered.
+func (e c15Entry) MarshalJSON() ([]byte, error) {
+	if utf8.ValidString(e.Msg) {
+		return json.Marshal(struct {
+			TS  int64  `json:"ts"`
+			Msg string `json:"msg"`
+		}{e.TS, e.Msg})
+	}
+	return json.Marshal(struct {
+		TS  int64  `json:"ts"`
+		B64 string `json:"msg_base64"`
+	}{e.TS, base64.StdEncoding.EncodeToString([]byte(e.Msg))})
+}
+
+func (e *c15Entry) UnmarshalJSON(data []byte) error {
+	var raw struct {
+		TS  int64   `json:"ts"`
+		Msg string  `json:"msg"`
+		B64 *string `json:"msg_base64"`
+	}
+	if err := json.Unmarshal(data, &raw); err != nil {
+		return err
+	}
+	e.TS, e.Msg = raw.TS, raw.Msg
+	if raw.B64 != nil {
+		b, err := base64.StdEncoding.DecodeString(*raw.B64)
+		if err != nil {
+			return err
+		}
+		e.Msg = string(b)
+	}
+	return nil
 }
 
 type c15Stream struct {
@@ -222,7 +259,13 @@ func c15Judge(r *vkit.Run, check string, in c15Input, report any, obs c15Obs) {
 		fail("renderResult failed: "+obs.Err, "")
 		return
 	}
-	if !in.Color && strings.Contains(obs.Out, "\x1b") {
+	escInInput := false
+	for _, e := range all {
+		if strings.Contains(e.msg, "\x1b") || strings.Contains(e.name, "\x1b") {
+			escInInput = true // messages are printed as they are; the layout match below decides
+		}
+	}
+	if !in.Color && !escInInput && strings.Contains(obs.Out, "\x1b") {
 		fail("colour is off but the output contains an escape sequence", "")
 		return
 	}
@@ -237,7 +280,7 @@ func c15Judge(r *vkit.Run, check string, in c15Input, report any, obs c15Obs) {
 	}
 }
 
-var c15Msgs = []string{"m", "", "m\n", "m\r\n", "a\nb", "\n", "\xff", "m\r", " m \n", "\tm\t", "m\n\n", "m\r\n\r\n", "m\n\r", "\r\r\n\n"}
+var c15Msgs = []string{"m", "", "m\n", "m\r\n", "a\nb", "\n", "\xff", "m\r", " m \n", "\tm\t", "m\n\n", "m\r\n\r\n", "m\n\r", "\r\r\n\n", "100%", "%d %s%", "%!x(MISSING)\n"}
 
 func c15Run(r *vkit.Run) {
 	idx := 0
@@ -331,9 +374,11 @@ func c15Run(r *vkit.Run) {
 	for ai, a := range seqs {
 		for bi := ai % step; bi < len(seqs); bi += step {
 			b := seqs[bi]
-			for v := 0; v < 3; v++ {
+			for v := 0; v < 4; v++ {
 				s2 := c15Stream{Container: "c1", Entries: b}
 				switch v {
+				case 3:
+					s2 = c15Stream{Container: "100%s", Entries: b} // a container label is any string (label_format)
 				case 1:
 					s2 = c15Stream{Container: "c0", Extra: "x", Entries: b}
 				case 2:
@@ -350,6 +395,14 @@ func c15Run(r *vkit.Run) {
 			}
 		}
 	}
+	// (c) every byte value inside and as a whole message ("any message bytes")
+	for b := 0; b < 256; b++ {
+		for _, m := range []string{string([]byte{byte(b)}), "a" + string([]byte{byte(b)}) + "z", string([]byte{byte(b), byte(b)}) + "\n"} {
+			for k := 0; k < 8; k += 3 {
+				one(c15Input{Streams: []c15Stream{{Container: "c0", Entries: []c15Entry{{TS: base, Msg: m}, {TS: base + 1, Msg: "n"}}}}, Timestamp: k&1 != 0, Container: k&2 != 0, Color: k&4 != 0}, true)
+			}
+		}
+	}
 	c15E2ERun(r, func(fn func()) {
 		idx++
 		if !r.Mine(idx) || r.Stop() {
@@ -358,7 +411,7 @@ func c15Run(r *vkit.Run) {
 		fn()
 		r.NonTrivial()
 	})
-	r.Note("bounds", fmt.Sprintf("0..%d containers x 3 entry-count patterns x 3 timestamp patterns (distinct interleaved, all equal, reversed) x 8 message offsets x up to 3 stream rotations x 8 option combinations; plus all results of 2 streams x <=2 entries over 2 timestamps x 8 messages (1/%d lattice on the second stream) in 3 stream-identity variants; end to end (argv -> fake daemon -> printed bytes): 1-3 containers x 3 timestamp patterns x 6 message offsets x 20 spellings of the --timestamp/-t, --container/-c, --color flags incl. their defaults", maxN, step))
+	r.Note("bounds", fmt.Sprintf("0..%d containers x 3 entry-count patterns x 3 timestamp patterns (distinct interleaved, all equal, reversed) x 17 message offsets x up to 3 stream rotations x 8 option combinations; plus all results of 2 streams x <=2 entries over 2 timestamps x 17 messages (1/%d lattice on the second stream) in 4 stream-identity variants; every byte value 0..255 alone, doubled and inside a message; end to end (argv -> fake daemon -> printed bytes): 1-3 containers x 3 timestamp patterns x 6 message offsets x 20 spellings of the --timestamp/-t, --container/-c, --color flags incl. their defaults", maxN, step))
 }
 
 // ---- end to end: the command itself, from argv over a fake daemon to the printed bytes ----
@@ -458,13 +511,13 @@ func c15E2ERun(r *vkit.Run, one func(fn func())) {
 func c15Replay(r *vkit.Run, v vkit.Violation) *vkit.Violation {
 	if v.Check == "C15/e2e" {
 		var in c15E2EInput
-		if err := json.Unmarshal(v.Input, &in); err != nil {
+		if err := vkit.DecodeInput(v, &in); err != nil {
 			r.HarnessError("bad input: %v", err)
 		}
 		return vkit.ReplayOne(r, func() { c15E2ECheck(r, in) })
 	}
 	var in c15Input
-	if err := json.Unmarshal(v.Input, &in); err != nil {
+	if err := vkit.DecodeInput(v, &in); err != nil {
 		r.HarnessError("bad input: %v", err)
 	}
 	return vkit.ReplayOne(r, func() { c15Check(r, in) })
